@@ -175,7 +175,28 @@ pub fn run_one(out: &mut Out, sc: usize, s: &J) {
     }
 }
 
+/// a family aimed at the asset passes: a token that no single offered UTxO covers but two together do, sitting at chosen positions
+/// of the offered list (first / last matter: the strategies treat the ends of the list specially), with the lovelace need already met
+/// by a withdrawal or by an input that is in the builder - or not
+fn gen_token_split(rng: &mut Rng) -> J {
+    let strat = *rng.pick(&["LargestFirstMultiAsset", "RandomImproveMultiAsset"]);
+    let n = 2 + rng.below(3) as usize;
+    let (qa, qb) = (2 + rng.below(5), 2 + rng.below(5));
+    let need = qa.max(qb) + 1 + rng.below(qa.min(qb));
+    let tok = |q: u64| json!([{"p": [1], "n": [7], "q": q}]);
+    let mut utxos: Vec<J> = (0..n).map(|_| json!(1 + rng.below(3))).collect();
+    let ia = rng.below(n as u64) as usize;
+    let ib = (ia + 1 + rng.below(n as u64 - 1) as usize) % n;
+    utxos[ia] = json!({"c": 2, "assets": tok(qa)});
+    utxos[ib] = json!({"c": 2, "assets": tok(qb)});
+    if rng.chance(1, 2) { utxos.swap(ib, n - 1); }
+    let (wd, pre): (u64, Vec<J>) = match rng.below(3) { 0 => (10, vec![]), 1 => (0, vec![json!(10)]), _ => (0, vec![]) };
+    json!({"strat": strat, "mode": "explore", "unit": 1_000_000, "a": 44, "b": 155381, "cpb": 0, "wd": wd,
+           "utxos": utxos, "outs": [{"c": 2, "assets": tok(need)}], "pre": pre, "distinct_addrs": false, "max_leaves": 1500})
+}
+
 fn gen(rng: &mut Rng) -> J {
+    if rng.chance(1, 6) { return gen_token_split(rng); }
     let strat = *rng.pick(&["LargestFirst", "RandomImprove", "LargestFirstMultiAsset", "RandomImproveMultiAsset"]);
     let multi = strat.ends_with("MultiAsset");
     let nu = 1 + rng.below(6);
